@@ -10,7 +10,7 @@ META = {
     "engine": "afc",
     "technique": "TLA+ spec AfcShm (writer and readers of the shared-memory channel lists, one action per yield point) model-checked with TLC for the call-level removal predicate; edge-covering schedules of its state graph replayed on the real shm WriteState/ReadState under the yield-point scheduler; the recorded real call/return history validated against the property machine AfcAbs (trace validation)",
     "text": "TLC checks every interleaving of a writer running scripts of add/remove/remove_if/remove_all (generation bump, list change, offset swap, second list) with readers doing setup_*_ctx, seal and open with cached keys: a call invoked after a removal of its channel returned never finds the channel, a channel no removal was invoked for is never lost, removed ids never reappear. Spec mutants must be rejected: bumping only the first list's generation; bumping before the lookup (removal of an absent id leaves the generations one apart); an open lookup that trusts the cached slot without comparing the id. Every transition of the schedule graphs is executed on real WriteState/ReadState over POSIX shared memory (one process, writer + reader threads): after each step the lists, generations and offsets from a verification snapshot and the results of completed calls are compared with the spec. VIOLATION only if, in the real history ordered by the scheduler's step counter, a seal/open/setup invoked after a removal returned found the channel, NotFound was returned for a channel no removal was invoked for, a removed id is listed again, or the recorded history is rejected by AfcAbs.",
-    "note": "Bounds: capacity 2; design run 7 writer scripts of 3 calls x 2 readers x 2 calls (thorough: 3 calls); schedule graphs: 1 reader x 4 calls over 9 scripts, 2 readers x 2 calls over 2 scripts, 1 reader x 3 calls over 9 capacity-4 scripts (swap_remove relocations of seal and open channels, removals of absent ids before real ones); quick replays a seeded sample of the cover paths. Sequentially consistent interleavings only (DESIGN §9). The in-memory state (memory::State) is covered by AfcMem (5 scripts x 2 readers x 3 calls; schedule graph with 2 calls) replayed on the real memory::State with the tracking allocator.",
+    "note": "Bounds: capacity 2; design run 7 writer scripts of 3 calls x 2 readers x 2 calls (thorough: 3 calls); schedule graphs: 1 reader x 4 calls over 9 scripts, 2 readers x 2 calls over 2 scripts, 1 reader x 3 calls over 9 capacity-4 scripts (swap_remove relocations of seal and open channels, removals of absent ids before real ones); quick replays a seeded sample of the cover paths. Sequentially consistent interleavings only (DESIGN §9). The in-memory state (memory::State) is covered by AfcMem (7 scripts incl. remove_all followed by add - ids must not start over -, 2 readers x 3 calls; schedule graph with 2 calls) replayed on the real memory::State with the tracking allocator.",
 }
 
 
